@@ -191,7 +191,7 @@ BRIDGE = {
         "select_fid_bridge", "select_app_bridge", "cclen_bridge", "discover4_bridge", "read_loop4_bridge", "nlen_bridge",
         "read_file4_bridge", "discover4_nlen", "read_ndef4_bridge", "cutData_sound", "cutNlen_sound", "chunk_cmds_bridge", "pack_nlen", "plan_write_bridge",
         "gen_t4_read_safe",
-        "gen_more_false_last")],
+        "gen_more_false_last", "gen_exchange_is_c12", "gen_terminates", "gen_at_most_once_exact")],
     "properties": ["C12", "C16", "C08", "C01"],
 }
 
